@@ -8,7 +8,10 @@ configurations (constants overridden per tier below):
   SP_all.cfg    MaxSteps = 0: *every* history of any length over <= MaxH handles and MaxObj objects,
                 untyped objects, all operations, both modes (the state space is finite because no
                 variable records unbounded history)
-  SP_typed.cfg  typed and untyped objects mixed, three slots, histories bounded by MaxSteps
+  SP_self.cfg   like SP_all plus the driver's OWN handle (co_await self()) at every position: AddSelf /
+                ConstructSelf, co_await / clear / destruction / pop of objects holding it, Yield
+  SP_typed.cfg  typed and untyped objects mixed, three slots, histories bounded by MaxSteps, reads of the
+                attached value in every order; replayed twice: payload int and a move-tracking payload
   SP_grow.cfg   two objects, many handles, operations biased to the capacity boundaries
                 3 -> heap(6) -> 12 -> 24 -> 48 (AddTo = fill up to a boundary, AddHandle = the add() that allocates)
   SP_deep.cfg   two objects, up to 52 handles: the 24 -> 48 and 48 -> 96 doublings (thorough)
@@ -20,12 +23,15 @@ from collections import deque
 import vlib
 from framework import graph_replay
 
-PROJ = ["blocks", "burst", "dalloc", "done", "mode", "nextH", "queue", "resumed", "ret", "sp"]
+PROJ = ["blocks", "burst", "dalloc", "done", "dres", "mode", "nextH", "queue", "resumed", "ret", "rmf", "sp"]
 ALL_OPS = ["ConstructEmpty", "ConstructH", "MoveConstruct", "AddHandle", "AddFill", "MergeShl", "MoveAssign",
            "Pop", "Clear", "Destroy", "CoAwait", "Pause"]
+SELF_OPS = ["ConstructSelf", "AddSelf", "Yield"]
+KEY_SELF_LAST = "await_own_handle_last"     # known_findings.jsonl: fixed in /repo 283e427
 
 
 def proj(st):
+    """payload with observable move semantics (Tracked): the whole specification state"""
     out = {k: st[k] for k in PROJ}
     # functions with an empty domain / empty sequences print alike; records are already dicts
     out["sp"] = list(st["sp"]) if isinstance(st["sp"], list) else [st["sp"][k] for k in sorted(st["sp"], key=int)]
@@ -34,9 +40,41 @@ def proj(st):
     return out
 
 
-def hdr(k, st0):
-    # alt: Clear is executed through clear() (0) or through suspend_now() (1)
-    return {"mode": st0["mode"], "maxh": len(st0["resumed"]), "maxobj": len(st0["sp"]), "alt": k % 2}
+def proj_int(st):
+    """payload int: a moved-from int is indistinguishable from the original"""
+    out = proj(st)
+    out["rmf"] = False
+    out["sp"] = [dict(o, mv=False) for o in out["sp"]]
+    return out
+
+
+def hdr_for(payload):
+    def hdr(k, st0):
+        # alt: Clear is executed through clear() (0) or through suspend_now() (1)
+        return {"mode": st0["mode"], "maxh": len(st0["resumed"]), "maxobj": len(st0["sp"]), "alt": k % 2,
+                "payload": payload}
+    return hdr
+
+
+def key_fn(sid, line, txt):
+    """violation key; a divergence at `co_await` of an object whose last handle is the driver's own
+    (the defect fixed by /repo 283e427) gets the key under which that finding is filed"""
+    import json
+    import re
+    m = re.match(r"DIVERGE \S+ step=(\d+) action=CoAwait\((\d+)\)", line)
+    if m:
+        k, i = int(m.group(1)), int(m.group(2))
+        rows = [l for l in txt.splitlines() if not l.startswith("#")]
+        try:
+            maxh = json.loads(rows[0].split(" ", 2)[2])["maxh"]
+            if k >= 1:
+                before = json.loads(rows[k].split("\t", 1)[1])       # rows[0] is BEGIN, rows[k] is step k-1
+                h = before["sp"][i - 1]["h"]
+                if h and h[-1] == maxh + 1:
+                    return KEY_SELF_LAST
+        except Exception:
+            pass
+    return "diverge:SuspendPoint:%s" % re.sub(r"^DIVERGE \S+ ", "", line)[:80]
 
 
 def fast_cover_paths(g, rng, max_paths=None, full=True, max_len=400, want_terminal=True):
@@ -184,21 +222,36 @@ def run(ctx):
     q = ctx.quick
     full = ALL_OPS + ["Finish"]
     grow = ["ConstructEmpty", "MoveConstruct", "AddHandle", "AddTo", "MergeShl", "Pop", "Clear", "Destroy", "CoAwait", "Finish"]
+    grow_self_ops = ('{"ConstructEmpty", "ConstructSelf", "AddSelf", "Yield", "MoveConstruct", "AddHandle", "AddTo", '
+                     '"MergeShl", "MoveAssign", "Pop", "Clear", "Destroy", "CoAwait"}')
     jobs = [
-        # (cfg, tag, constants, must_take, extra_random)
-        ("SP_all.cfg", "all", {"MaxObj": 2, "MaxH": 5}, full, 100 if q else 1000),
-        ("SP_typed.cfg", "typed", {"MaxSteps": 4 if q else 5}, full, 100 if q else 1000),
-        ("SP_grow.cfg", "grow", {"MaxSteps": 6 if q else 7}, grow + ["MoveAssign"], 100 if q else 1000),
+        # (cfg, tag, constants, must_take, extra_random, payload)
+        ("SP_all.cfg", "all", {"MaxObj": 2, "MaxH": 5}, full, 100 if q else 1000, "int"),
+        ("SP_self.cfg", "self", {"MaxH": 3 if q else 4}, full + SELF_OPS, 100 if q else 1000, "int"),
+        ("SP_typed.cfg", "typed", {"MaxSteps": 4 if q else 5}, full + ["Read"], 50 if q else 500, "int"),
+        ("SP_typed.cfg", "typedT", {"MaxSteps": 4 if q else 5}, full + ["Read"], 50 if q else 500, "tracked"),
+        ("SP_grow.cfg", "grow", {"MaxSteps": 6 if q else 7}, grow + ["MoveAssign"], 100 if q else 1000, "int"),
     ]
     if not q:
-        jobs.append(("SP_all.cfg", "all3", {"MaxObj": 3, "MaxH": 4}, full, 1000))
-        jobs.append(("SP_deep.cfg", "deep", None, grow, 1000))
-    for (cfg, tag, consts, must, rnd) in jobs:
-        replay(ctx, "SuspendPoint", "SuspendPoint", cfg, tag, rp, proj, header_fn=hdr, must_take=must,
-               constants=consts, extra_random=rnd, tlc_kw={"workers": 4})
-    # specification-level runs without replay: larger exhaustive bounds, random long behaviours
+        jobs.append(("SP_all.cfg", "all3", {"MaxObj": 3, "MaxH": 4}, full, 1000, "int"))
+        jobs.append(("SP_grow.cfg", "growself", {"MaxSteps": 6, "Ops": grow_self_ops}, grow + SELF_OPS, 1000, "int"))
+        jobs.append(("SP_deep.cfg", "deep", None, grow + ["AddSelf"], 1000, "int"))
+    for (cfg, tag, consts, must, rnd, payload) in jobs:
+        replay(ctx, "SuspendPoint", "SuspendPoint", cfg, tag, rp, proj if payload == "tracked" else proj_int,
+               header_fn=hdr_for(payload), must_take=must, constants=consts, extra_random=rnd,
+               tlc_kw={"workers": 4}, key_fn=key_fn)
     sd = vlib.VERIF + "/spec/SuspendPoint/"
-    extra = [("SP_all.cfg", "all_typed", {"MaxObj": 2, "MaxH": 4, "Typed": "TRUE"}, {})]
+    # self-test of the specification: the behaviour before /repo 283e427 (Fixed = FALSE: the awaiting
+    # coroutine is queued although pop() picked its own handle for the symmetric transfer) must be rejected
+    path = vlib.BUILD + "/C06_unfixed.cfg"
+    vlib.write_cfg(path, open(sd + "SP_self.cfg").read(), {"MaxH": 2, "Fixed": "FALSE"})
+    r = vlib.run_tlc(sd, "SuspendPoint", path, "C06_unfixed", workers=2, coverage=False)
+    if r.violated_name != "NoDoubleResume":
+        raise vlib.MachineryError("the properties accept the pre-fix model (Fixed = FALSE) of await_suspend: vacuous (%s)"
+                                  % (r.violation or r.error or "no violation"))
+    ctx.extra["prefix_model_rejected_by"] = "%s, %d steps" % (r.violation, len(r.trace))
+    # specification-level runs without replay: larger exhaustive bounds, random long behaviours
+    extra = [("SP_all.cfg", "all_typed", {"MaxObj": 2, "MaxH": 3 if q else 4, "Typed": "TRUE"}, {})]
     if not q:
         extra.append(("SP_all.cfg", "all6", {"MaxObj": 2, "MaxH": 6}, {}))
         extra.append(("SP_all.cfg", "all_typed5", {"MaxObj": 2, "MaxH": 5, "Typed": "TRUE"}, {}))
@@ -213,9 +266,15 @@ def run(ctx):
             ctx.tlc_violation(res, "SuspendPoint:%s[%s]" % (cfg, tag))
     ctx.assume("handles are coroutines that neither touch the suspend point being operated on nor the ready queue "
                "(re-entrant use of a suspend point from a coroutine it resumes is not modelled)")
-    ctx.assume("each handle is handed to a suspend point at most once and lives in one suspend point at a time; "
-               "self-merge (a << std::move(a)) and a suspend point containing the awaiting coroutine's own handle are excluded")
-    ctx.assume("a handle returned by pop() is resumed by the caller at once; operator new[] does not fail")
+    ctx.assume("each foreign handle is handed to a suspend point at most once and lives in one suspend point at a time; "
+               "the awaiting coroutine's own handle (co_await self()) exists at most once at a time; "
+               "self-merge (a << std::move(a)) is excluded")
+    ctx.assume("histories in which the caller makes the RUNNING coroutine resumable are not generated (undefined behaviour of "
+               "the caller): clear()/destruction of a suspend point holding the own handle outside coroutine mode; "
+               "co_await of a non-empty suspend point, pause() or self() while the own handle waits in the ready queue")
+    ctx.assume("a handle returned by pop() is resumed by the caller at once (its own handle is dropped); operator new[] does not fail")
     ctx.assume("single thread: suspend_point is not a shared object (it is a return value / local)")
+    ctx.assume("payload types int and a move-tracking class (identity, moved-from flag); the attached value is observed "
+               "through a probe of the member, reads only happen as operations of the history")
     ctx.assume("capacity doublings beyond 48->96 and more than 3 simultaneously live objects are not explored; "
                "histories with typed objects are bounded by MaxSteps operations (untyped: unbounded length over <= MaxH handles)")
